@@ -400,7 +400,7 @@ def run(tier, V):
             V.violation(key, what, wit)
     c0 = make_case(base)
     cov = {'evaluations': nck, 'distinct_nontrivial': nontriv, 'programs': n, 'checkpoints': nck,
-           'rule': ('%d programs of 5-30 commands (motions, ^E ^Y ^D ^U ^F ^B z-commands, edits, puts, joins, undo/redo, ex commands, window commands) x buffers empty / shorter / longer than the window, long lines (horizontal scroll) '
+           'rule': ('%d programs of 5-30 commands (motions, ^E ^Y ^D ^U ^F ^B z-commands, edits, puts, joins, undo/redo, ex commands, window commands, tag jumps incl. stale entries) x buffers empty / shorter / longer than the window, long lines (horizontal scroll; rows of double-width characters; right-to-left windows with given-up prompts) '
                     'x windows 3x10 .. 24x80 x hl/hll on/off x 25%% other file types (their highlight patterns).  after EVERY command a ^L^L checkpoint: emulated screen before the repaint == after it (rows of the active window and cursor); at the last checkpoint (for the 10%% horizontal-scroll programs - long lines, jumps to columns around multiples of the window width - at every checkpoint) a twin run gives buffer and cursor: '
                     'rows must be a contiguous window containing the cursor line and the terminal cursor must be on the marker\'s cell.  non-trivial = a checkpoint whose screen differs from the previous one (something was redrawn).' % n),
            'samples': [{'window': (c0['rows'], c0['cols']), 'program': [common.show(p, 20) for p in c0['prog'][:10]]}]}
